@@ -18,7 +18,7 @@ META["bounds"] = c01.META["bounds"] + [
 META["outside"] = c01.META["outside"] + ["escaping of < & \" ]]> and control characters (XMLGenerator / lxml)", "compound fields, wildcards, unions, QName values, formats in oracle 2 (monitor only)"]
 
 REFERENCE = ["basic_int", "basic_str", "textattr", "textstr", "reqtext", "lists_int", "lists_str", "tokenlists", "frozen", "nillable", "nilparent", "parenta",
-             "parentb", "nsattr", "unqualified", "sequential", "wrapped", "enums", "defaults", "holder", "derived_root"]
+             "parentb", "nsattr", "nsattrparent", "derivedb", "unqualified", "sequential", "wrapped", "enums", "defaults", "holder", "derived_root"]
 
 SLEN = PART.get("slen", 2)
 IMAX = PART.get("imax", 100)
